@@ -11,7 +11,10 @@ from corr.c01 import cbrt_oracle
 META = dict(
     trusted_base=['exceptions raised inside oracles (fpylll, scipy) are outside the model'],
     assumptions=['proved: RSA per-key verdicts, BatchGCD/CheckGCD(N1), bookkeeping and EC Add/Double never raise '
-                 '(Props/C18, C03, C16, C11); EC/ECDSA check layers: totality searched on the implementation'])
+                 '(Props/C18, C03, C16, C11); EC checks / CheckAllEC on ANY coordinates and cached tables, CheckAllECDSASigs with ANY '
+                 'issuer keys, nonce checks composed with the solver models for r, s in [1, n-1] (Props/C18Ec; oracles: lll.reduce '
+                 'output, float sqrt values, set orders); degenerate coordinates / invalid issuer keys also compared with the composed '
+                 'models line by line (corr/c18ec.py, quick tier: BatchDL bound 2**16, max_diff 2**10)'])
 
 
 def raises(f, *a, limit=900):
@@ -188,3 +191,6 @@ def correspondence(rep, rng, tier):
   # ---- model correspondence of the ECDSA check layer incl. malformed r/s (which inputs raise)
   import corr.c02s as c02s
   c02s.correspondence_sigs(rep, rng, tier)
+  # ---- degenerate coordinates / invalid issuer keys through the entry points AND the composed models
+  import corr.c18ec as c18ec
+  c18ec.correspondence_ec(rep, rng, tier)
